@@ -43,8 +43,37 @@ def main(argv=None):
     except core.InfraError as e:
         print(f"INFRA-ERROR {pid}: {e}")
         return 2
-    except Exception:
+    except Exception as e:
         traceback.print_exc()
+        # An exception that comes out of the code under test (a frame inside the checked-out
+        # repository, or a missing opacus name the harness drives) means the correspondence can no
+        # longer be run against this tree: by DESIGN §3 that is a broken correspondence, i.e. the
+        # property is no longer shown to hold (exit 1, no-failing-input-found).  Tool-chain trouble
+        # (time-outs, lake, drivers) stays an infrastructure error (exit 2).
+        import subprocess
+        tb = traceback.extract_tb(e.__traceback__)
+        repo = str(core.REPO.resolve())
+        in_repo = [f for f in tb if os.path.realpath(f.filename).startswith(repo + os.sep)]
+        names = isinstance(e, (ImportError, AttributeError)) and "opacus" in (str(e) + " ".join(f.line or "" for f in tb[-2:]))
+        if (in_repo or names) and not isinstance(e, (subprocess.TimeoutExpired, MemoryError)):
+            where = f"{in_repo[-1].filename}:{in_repo[-1].lineno} in {in_repo[-1].name}" if in_repo else "harness (opacus name no longer resolves)"
+            ctx.violation(
+                "impl-exception",
+                {
+                    "kind": "correspondence-break",
+                    "component": "harness-could-not-drive-implementation",
+                    "exception": f"{type(e).__name__}: {e}"[:600],
+                    "raised_at": where,
+                    "trace": traceback.format_exc()[-2500:],
+                    "unchecked": f"the correspondence of {pid} could not be run: the implementation raised where the unchanged tree does not",
+                },
+                no_failing_input=True,
+            )
+            try:
+                ctx.finish()
+            except Exception:
+                pass
+            return 1
         print(f"INFRA-ERROR {pid}: harness crashed")
         return 2
 
